@@ -21,6 +21,7 @@ func init() {
 		ID:      "C07",
 		Arch386: true,
 		Explanation: "T18 every call into go-sev-guest's certificate-table parser (CertTable.Unmarshal, ReportCertsToProto) is dominated by the nil edge of extractsev.CheckCertTable over bytes of the same input (F24). " +
+			"T23 (= C16.R8/R9) optional evidence sources are nil-tested before use and never wrapped or manufactured by the extraction library. " +
 			"T21 a difference of two non-constant integers that is unsigned, or used as an index / slice bound / allocation size, is taken only where the subtrahend is known to be no larger than the minuend (dominating comparison of the same values, transitively, shifted form, by construction, helper postcondition, established by every caller, or — signed — every use behind diff ≥ 0); named value exceptions by package and operand shape. " +
 			"T19 every single-result type assertion in V is on a value whose dynamic type is fixed by construction (proto.Clone result, interface made in the function). " +
 			"T17 (= C09.R1/R4) the verification closure writes no state that outlives the call, so the outcome for an input does not depend on earlier inputs. " +
@@ -86,6 +87,10 @@ func c07Roots(c *Ctx) []*ssa.Function {
 }
 
 func runC07(c *Ctx) {
+	// T23 = C16.R8/R9: an absent evidence source is reported, not called through. The nil guard of a source tests the
+	// interface the caller handed over; nothing in the extraction library wraps that interface in a value of its own
+	// (a wrapper is never nil, so the guard no longer fires and the wrapper calls through a nil getter).
+	c.borrow("T23/C16.", runC16, func(rule, _ string) bool { return rule == "R8" || rule == "R9" })
 	// T18 (finding F24): go-sev-guest's certificate-table parser adds an entry's offset and length in 32 bits and then
 	// slices: a wrapping entry panics. Every call of this repository into that parser ((*abi.CertTable).Unmarshal,
 	// abi.ReportCertsToProto) is reached only on the nil edge of extractsev.CheckCertTable (the 64-bit range check) over
